@@ -57,10 +57,16 @@ func newRunner(prop, tier string, seed uint64) *runner {
 }
 
 // add executes the case on the implementation and queues it for the model.
-func (rn *runner) add(tc *testCase) {
+func (rn *runner) add(tc *testCase) { rn.addWith(tc, nil) }
+
+// addWith runs `pre` before every op (used to set per-op harness-side options).
+func (rn *runner) addWith(tc *testCase, pre func()) {
 	st := newStore()
 	tc.impl = make([]string, len(tc.ops))
 	for i, op := range tc.ops {
+		if pre != nil {
+			pre()
+		}
 		tc.impl[i] = st.execTimed(op, 20*time.Second)
 		if tc.impl[i] == "hang" {
 			// the goroutine is leaked; stop this case here
@@ -132,6 +138,15 @@ func (rn *runner) flush() {
 			if k >= len(replies) {
 				rn.disagree(disagreement{Kind: "model", Ops: tc.ops, At: i, Impl: tc.impl[i], Other: "<driver died>", Note: tc.note})
 				break
+			}
+			if strings.HasPrefix(tc.ops[i], "spec") {
+				// property oracle: the specification's verdict against what the implementation did
+				rn.rep.Distribution["spec:"+outcomeOf(replies[k])]++
+				if replies[k] != "outside" && replies[k] != tc.impl[i] {
+					rn.disagree(disagreement{Kind: "spec", Ops: tc.ops, At: i, Impl: tc.impl[i], Other: replies[k], Note: tc.note})
+				}
+				k++
+				continue
 			}
 			if replies[k] != tc.impl[i] {
 				rn.disagree(disagreement{Kind: "model", Ops: tc.ops, At: i, Impl: tc.impl[i], Other: replies[k], Note: tc.note})
